@@ -113,7 +113,7 @@ def _canary_default_wins():
 CANARIES["swap_results_when_three_missing"] = _canary_pair_swap
 CANARIES["default_beats_input"] = _canary_default_wins
 
-QUICK_T = ["T1", "T2", "T3", "T4", "T5", "T6", "T7", "T7p", "T8", "T9", "T10", "T11", "T12", "T13", "T14", "T16"]
+QUICK_T = ["TN", "T1", "T2", "T3", "T4", "T5", "T6", "T7", "T7p", "T8", "T9", "T10", "T11", "T12", "T13", "T14", "T16", "T18"]
 
 
 def obligations(tier):
